@@ -169,6 +169,9 @@ func (e *Engine) checkProperty(verif, prop, tier string, t0 time.Time) int {
 	byBackend := map[string]int{}
 	var solverTotal, solverMax float64
 	notes := map[string]bool{}
+	for old, nn := range e.renamed {
+		notes["contract written for "+old+" re-bound to "+nn+" (function renamed or closures renumbered; recognised by its header)"] = true
+	}
 	var samples []interface{}
 	var funcsUnderContract, funcsSafetyOnly []string
 	var knownOut []string
